@@ -29,10 +29,12 @@ func docJSON(k int, d Doc) string {
 var aggNotRe = regexp.MustCompile(`_(count|sum|avg|min|max)\((Users|_group): \{[^()]*filter: \{_not:`)
 
 type evalRun struct {
-	c   Case
-	n   *hx.Node
-	e   *env
-	all []int
+	// aggs is the aggregate list of the selection being checked (for the shared-dependency model)
+	aggs []Agg
+	c    Case
+	n    *hx.Node
+	e    *env
+	all  []int
 	// observations for labels / non-triviality
 	labels    map[string]bool
 	nontriv   bool
@@ -314,6 +316,21 @@ func (r *evalRun) checkAgg(ctx, q string, members []int, a Agg, alias string, go
 	if a.Fn == "_count" {
 		s.Order = nil
 	}
+	if cur.avgShared && a.Fn == "_avg" {
+		// the first _avg of the selection with the same field and filter decides
+		for _, b := range r.aggs {
+			if b.Fn == "_avg" && b.Field == a.Field && b.Sub.Filter.gql() == a.Sub.Filter.gql() {
+				s = b.Sub
+				break
+			}
+		}
+	}
+	if r.c.Big && a.Fn == "_avg" && a.Field == "i" {
+		// the mean of integers beyond 2^53 is inexact in float64 by nature: not judged
+		r.skippedAg++
+		r.label("agg:avg-of-big-ints-skipped")
+		return nil
+	}
 	flt := s.Filter
 	if cur.avgNe && a.Fn == "_avg" {
 		if f2, hit := neOverwritten(flt, a.Field); hit {
@@ -459,6 +476,7 @@ func (r *evalRun) checkRows(q Query) *hx.Failure {
 			return hx.Failf("C08/rows/limit-slice-of-unlimited", "%s returned %s; the same request without limit/offset enumerates %s, whose slice is %s", qs, fmtKs(got), fmtKs(full), fmtKs(want))
 		}
 	}
+	r.aggs = q.Aggs
 	for i, a := range q.Aggs {
 		alias := fmt.Sprintf("a%d", i)
 		if f := r.checkAgg("top", qs, r.all, a, alias, res.Data[alias], true); f != nil {
@@ -555,6 +573,7 @@ func (r *evalRun) checkGroups(q Query) *hx.Failure {
 				return f
 			}
 		}
+		r.aggs = q.Aggs
 		for i, a := range q.Aggs {
 			alias := fmt.Sprintf("a%d", i)
 			if f := r.checkAgg("group", qs+" group "+key, members, a, alias, row[alias], false); f != nil {
@@ -606,7 +625,9 @@ func (r *evalRun) checkMeta() *hx.Failure {
 	c := r.c
 	F := c.Q.Filter
 	if F == nil {
-		F = &Filter{Kind: "and", Kids: []Filter{}}
+		// no filter: a tautology (is null or is not null) stands in, so that F can be combined
+		null := Lit{Null: true}
+		F = &Filter{Kind: "or", Kids: []Filter{{Kind: "leaf", Field: "i", Op: "_eq", Val: &null}, {Kind: "leaf", Field: "i", Op: "_ne", Val: &null}}}
 	}
 	G := &c.G
 	all, q0, f := r.rowsOf(nil, "k")
@@ -803,6 +824,7 @@ var knownModels = []struct {
 	{sigSumBig, func(m *model) { m.sumFloat = true }},
 	{sigGroupLimit, func(m *model) { m.groupLimitLost = true }},
 	{sigGroupOffset, func(m *model) { m.groupOffsetAll = true }},
+	{sigAvgShared, func(m *model) { m.avgShared = true }},
 }
 
 func (r *evalRun) checkAll() *hx.Failure {
